@@ -3,6 +3,7 @@ supply alphabets, disposable doubles, forest enumeration, context probes."""
 
 import itertools
 import logging
+from typing import Any
 
 from hv import boot  # noqa: F401
 
@@ -52,6 +53,31 @@ class M(State):
     tag: str = ""
 
 
+class _NoTruth:
+    """a value whose `==` yields something that has no truth value (array-like)"""
+
+    def __eq__(self, other):
+        return _Ambiguous()
+
+    def __hash__(self) -> int:
+        return 7
+
+    def __repr__(self) -> str:
+        return "NoTruth()"
+
+
+class _Ambiguous:
+    def __bool__(self) -> bool:
+        raise ValueError("The truth value of an array with more than one element is ambiguous")
+
+
+class N(State):
+    """holds a value that cannot be compared for a yes/no answer: the context never needs to"""
+
+    v: Any = None
+    tag: str = ""
+
+
 class IT(State):
     """a state whose class is iterable as well (a collection-like state): still ONE state"""
 
@@ -67,7 +93,7 @@ class IT(State):
 
 GI = G[int]
 
-FAMILY: dict[str, type[State]] = {"A": A, "A2": A2, "R": R, "G": GI, "U": U, "F": F, "M": M, "IT": IT}
+FAMILY: dict[str, type[State]] = {"A": A, "A2": A2, "R": R, "G": GI, "U": U, "F": F, "M": M, "IT": IT, "N": N}
 
 # supply alphabet: lists of type names (two entries of one type = two instances, last wins)
 SUPPLY = [
@@ -89,6 +115,7 @@ SUPPLY = [
     ["M"],
     ["IT"],
     ["A", "IT"],
+    ["N"],
 ]
 
 
@@ -102,6 +129,8 @@ def make_states(names: list[str], label: str) -> list[State]:
             out.append(U(v=1, tag=tag))
         elif n == "M":
             out.append(M(m=1, tag=tag))
+        elif n == "N":
+            out.append(N(v=_NoTruth(), tag=tag))
         elif n == "A=":
             out.append(A(tag=tag))  # callers re-tag it to equal the enclosing instance
         elif n == "G":
